@@ -180,6 +180,29 @@ def run(ctx):
                '' if ok else 'for a file database the name handed to SQLitePool can be the name as given (relative): every new connection resolves it against the current '
                'working directory, so a forked child that changed directory works on a different file than its parent', node=pn.ast)
 
+    # ---------------------------------------------------------------- SESSION
+    # a session that is open when the process forks exists in both processes and holds the connection handle itself (cache.connection): the
+    # pool's pid comparison is never consulted for it.  Necessary condition for "the child never issues statements on the parent's connection"
+    # at the fork point "open transaction": the session records which process opened the handle it holds and compares that with the current
+    # process before it hands the handle to the provider (rollback / commit / release / execute).
+    sc = repo.cls('pony.orm.core', 'SessionCache')
+    users = []
+    for name, m in sorted(sc.methods.items()):
+        held = {m.recv + '.connection'}
+        for s_ in walk_no_nested(m.node):
+            for t, v in assign_pairs(s_):
+                if isinstance(t, ast.Name) and v is not None and dotted(v) == m.recv + '.connection': held.add(t.id)
+        if any(isinstance(c.func, ast.Attribute) and 'provider' in norm(c.func.value) and any(dotted(a) in held for a in c.args) for c in calls_in(m.node)):
+            users.append(m)
+    ctx.need(len(users) >= 3, 'C36: the SessionCache methods that hand the held connection to the provider were not found')
+    compares = [m for m in users if any(isinstance(x, ast.Compare) and 'pid' in norm(x) for x in ast.walk(m.node))]
+    cn = sc.methods['connect']
+    ok = len(compares) == len(users)
+    ctx.ob('C36-SESSION.held-connection-is-used-only-by-the-process-that-opened-it', cn, cn.node, ok,
+           '' if ok else 'SessionCache keeps the connection handle across a fork and %s hand it to the provider without comparing the process that opened it '
+           'with os.getpid(): a child that leaves (rolls back) a session inherited with an open transaction issues ROLLBACK on the parent\'s connection'
+           % ', '.join(m.qual.split('.')[-1] for m in users if m not in compares))
+
 
 MUTANTS = [
     dict(id='C36-stamp', file='pony/orm/dbapiprovider.py', fn='Pool.connect', old="            pool._connect()\n            pool.pid = pid", new="            pool._connect()", expect='C36-OWNER.connection-is-stamped'),
